@@ -2,9 +2,9 @@ SPECIFICATION MCSpec
 CONSTANTS
   Actors = {"a1", "a2"}
   Victims = {}
-  Prog <- Pf1
+  Prog <- Pf2
   InitPoison = TRUE
-  Fix1 = FALSE
+  Fix1 = TRUE
   Fix2 = TRUE
 INVARIANTS RWExclusion NothingBad PopNeverEmpty GuardsBalance
 VIEW View
